@@ -20,9 +20,10 @@ type ParPar interface {
 	Parse(*tinkpb.KeyTemplate) (key.Parameters, error)
 }
 
-// PrefixTypeOf maps the harness's prefix kind to the proto enum.
+// PrefixTypeOf maps the harness's prefix kind to the proto enum
+// (0 TINK, 1 CRUNCHY, 2 LEGACY, 3 RAW, 4 WITH_ID_REQUIREMENT - ML-DSA's NoPrefixWithPrehashID only).
 func PrefixTypeOf(kind int) tinkpb.OutputPrefixType {
-	return [...]tinkpb.OutputPrefixType{tinkpb.OutputPrefixType_TINK, tinkpb.OutputPrefixType_CRUNCHY, tinkpb.OutputPrefixType_LEGACY, tinkpb.OutputPrefixType_RAW}[kind]
+	return [...]tinkpb.OutputPrefixType{tinkpb.OutputPrefixType_TINK, tinkpb.OutputPrefixType_CRUNCHY, tinkpb.OutputPrefixType_LEGACY, tinkpb.OutputPrefixType_RAW, tinkpb.OutputPrefixType_WITH_ID_REQUIREMENT}[kind]
 }
 
 // CheckKeyRoundTrip: serialize -> parse yields an Equal key whose serialization is identical;
@@ -43,15 +44,62 @@ func CheckKeyRoundTrip(k key.Key, ks KeySer, kp KeyPar, ps ParSer, pp ParPar, ki
 	verifrt.Assert(s2.OutputPrefixType() == s1.OutputPrefixType(), "second serialization: same prefix type")
 	id2, req2 := s2.IDRequirement()
 	verifrt.Assert(id2 == gotID && req2 == req, "second serialization: same id requirement")
-	// parameters
-	t1, err := ps.Serialize(k.Parameters())
+	CheckParamsRoundTrip(k.Parameters(), ps, pp, kind, typeURL)
+	verifrt.Reach("roundtrip-ok")
+}
+
+// CheckParamsRoundTrip: Serialize -> Parse yields Equal parameters whose template is
+// byte-identical; the template's type URL and prefix type mirror the parameters.
+func CheckParamsRoundTrip(p key.Parameters, ps ParSer, pp ParPar, kind int, typeURL string) {
+	t1, err := ps.Serialize(p)
 	verifrt.Assert(err == nil, "Serialize(parameters) succeeds")
 	verifrt.Assert(t1.GetTypeUrl() == typeURL && t1.GetOutputPrefixType() == PrefixTypeOf(kind), "template type URL and prefix type")
 	p2, err := pp.Parse(t1)
 	verifrt.Assert(err == nil, "Parse accepts its own template")
-	verifrt.Assert(p2.Equal(k.Parameters()) && k.Parameters().Equal(p2), "parsed parameters Equal to the original")
+	verifrt.Assert(p2.Equal(p) && p.Equal(p2), "parsed parameters Equal to the original")
 	t2, err := ps.Serialize(p2)
 	verifrt.Assert(err == nil, "second Serialize succeeds")
 	verifrt.AssertEq(t2.GetValue(), t1.GetValue(), "second template is byte-identical")
+	verifrt.Assert(t2.GetTypeUrl() == t1.GetTypeUrl() && t2.GetOutputPrefixType() == t1.GetOutputPrefixType(), "second template: same type URL and prefix type")
+	verifrt.Reach("params-roundtrip-ok")
+}
+
+// CheckKeyRoundTripOnly is the key part of CheckKeyRoundTrip without the parameters round
+// trip: for key types whose parameters are deliberately not representable as a key template
+// (JWT CustomKID strategy: the template has no custom-kid field and parses as IgnoredKID).
+func CheckKeyRoundTripOnly(k key.Key, ks KeySer, kp KeyPar, kind int, id uint32, typeURL string, material tinkpb.KeyData_KeyMaterialType) {
+	s1, err := ks.SerializeKey(k)
+	verifrt.Assert(err == nil, "SerializeKey succeeds")
+	verifrt.Assert(s1.OutputPrefixType() == PrefixTypeOf(kind), "variant <-> output prefix type")
+	gotID, req := s1.IDRequirement()
+	verifrt.Assert(req == (kind != 3) && gotID == id, "id requirement preserved (0 / none for RAW)")
+	verifrt.Assert(s1.KeyData().GetTypeUrl() == typeURL && s1.KeyData().GetKeyMaterialType() == material, "type URL and key material type")
+	k2, err := kp.ParseKey(s1)
+	verifrt.Assert(err == nil, "ParseKey accepts its own serialization")
+	verifrt.Assert(k2.Equal(k) && k.Equal(k2), "parsed key Equal to the original")
+	s2, err := ks.SerializeKey(k2)
+	verifrt.Assert(err == nil, "second SerializeKey succeeds")
+	verifrt.AssertEq(s2.KeyData().GetValue(), s1.KeyData().GetValue(), "second serialization is byte-identical")
+	verifrt.Assert(s2.OutputPrefixType() == s1.OutputPrefixType(), "second serialization: same prefix type")
+	id2, req2 := s2.IDRequirement()
+	verifrt.Assert(id2 == gotID && req2 == req, "second serialization: same id requirement")
 	verifrt.Reach("roundtrip-ok")
+}
+
+// CheckParamsLossyRoundTrip is for parameters that are by design not representable as a key
+// template (JWT CustomKID: the key format has no custom-kid field): Serialize succeeds, the
+// template parses to `expect` (the documented image, not Equal to p), and serializing `expect`
+// gives the byte-identical template.
+func CheckParamsLossyRoundTrip(p, expect key.Parameters, ps ParSer, pp ParPar, kind int, typeURL string) {
+	t1, err := ps.Serialize(p)
+	verifrt.Assert(err == nil, "Serialize(parameters) succeeds")
+	verifrt.Assert(t1.GetTypeUrl() == typeURL && t1.GetOutputPrefixType() == PrefixTypeOf(kind), "template type URL and prefix type")
+	p2, err := pp.Parse(t1)
+	verifrt.Assert(err == nil, "Parse accepts its own template")
+	verifrt.Assert(p2.Equal(expect) && expect.Equal(p2) && !p2.Equal(p) && !p.Equal(p2), "template parses to the documented image of the parameters")
+	t2, err := ps.Serialize(p2)
+	verifrt.Assert(err == nil, "second Serialize succeeds")
+	verifrt.AssertEq(t2.GetValue(), t1.GetValue(), "second template is byte-identical")
+	verifrt.Assert(t2.GetTypeUrl() == t1.GetTypeUrl() && t2.GetOutputPrefixType() == t1.GetOutputPrefixType(), "second template: same type URL and prefix type")
+	verifrt.Reach("params-roundtrip-ok")
 }
